@@ -36,7 +36,7 @@ Near      == [kind |-> "near"]
 Asc(s) == s      \* texts are sequences of code points already
 
 LineText(l) ==
-  CASE l.kind = "kv" -> <<107, 61>> \o (IF IsNull(l.k) THEN <<>> ELSE l.k.s) \o <<32, 118, 61>> \o (IF IsNull(l.v) THEN <<>> ELSE IntText(l.v.i))
+  CASE l.kind = "kv" -> <<107, 61>> \o (IF IsNull(l.k) THEN <<>> ELSE l.k.s) \o <<32, 118, 61>> \o (IF IsNull(l.v) THEN <<>> ELSE IntTextB(l.v))
     [] l.kind = "garbage" -> <<35, 35, 35>>
     [] l.kind = "empty" -> <<>>
     [] l.kind = "near" -> <<107, 61, 97, 32, 118, 49>>            \* "k=a v1": one character short of a match
